@@ -198,7 +198,17 @@ int read_macho(
     return -1;
   }
 
+  file.set_endian(FileIo::FILE_ENDIAN_LITTLE);
   macho_header.magic_number = file.get_int32();
+
+  if (macho_header.magic_number == 0xcefaedfe ||
+      macho_header.magic_number == 0xcffaedfe)
+  {
+    // Written in big endian byte order.
+    file.set_endian(FileIo::FILE_ENDIAN_BIG);
+    file.set(0);
+    macho_header.magic_number = file.get_int32();
+  }
 
   if (macho_header.magic_number != 0xfeedface &&
       macho_header.magic_number != 0xfeedfacf)
